@@ -320,4 +320,22 @@ def h_model(ki: int, sub: bool, iv: int, lo: int, hi: int) -> bool:
         return rt.fail("C18:model-invalid-set_parameter-accepted", lambda: f"{full}={iv} in [{lo},{hi}]")
     if m.get_parameter(full) != iv:
         return rt.fail("C18:model-get-after-set-differs", lambda: f"{m.get_parameter(full)} != {iv}")
+    # the parameter is removed from the tree and replaced by another one under the same key: the model must
+    # address the one that is in the tree now
+    old = m.input_parameters.remove(full)
+    try:
+        m.get_parameter(full)
+        return rt.fail("C18:model-returns-a-removed-parameter", lambda: f"{full}")
+    except KeyError:
+        pass
+    parent = m.input_parameters.get("grp") if sub else m.input_parameters
+    new = InputParameterInt(key, "p2", 50, 1, parent=parent, min_value=40, max_value=60)
+    if m.get_parameter(full) != 50:
+        return rt.fail("C18:model-addresses-a-stale-parameter", lambda: f"get_parameter({full!r}) = {m.get_parameter(full)}, the tree holds {new.value}")
+    try:
+        m.set_parameter(full, 55)
+    except (ValueError, TypeError):
+        return rt.fail("C18:model-addresses-a-stale-parameter", lambda: "set_parameter validated against the removed parameter's bounds")
+    if new.value != 55 or m.get_parameter(full) != 55 or old.value != iv:
+        return rt.fail("C18:model-addresses-a-stale-parameter", lambda: f"new {new.value} old {old.value}")
     return True
